@@ -73,15 +73,14 @@ Definition add_event (s : sess) (w : N) (k : nat) (payload : bytes) : sess * boo
       if ok then
         (set_channels s (upd_chan uid (fun c => mkChan (ch_uid c) (pcommit entry q1) (ch_wid c) (ch_wname c) (ch_batch c) (ch_owner c)) (channels s)), true)
       else
-        (* replaceChannel(totalSize): capacity max(old, 2*total); the old reference is dropped AFTER the new channel exists *)
+        (* replaceChannel(totalSize): capacity max(old, 2*total); a new channel is created (appended), the writer
+           switches to it and drops its reference to the old one; the entry goes into the new, empty queue *)
         let newcap := Z.max (cap (ch_q c)) (2 * Z.of_nat (length entry)) in
-        let s1 := set_channels s (upd_chan uid (fun c => mkChan (ch_uid c) q1 (ch_wid c) (ch_wname c) (ch_batch c) (ch_owner c)) (channels s)) in
-        let s2 := create_channel s1 w newcap (ch_wid c) (ch_wname c) in
-        let s3 := set_channels s2 (close_chan uid (channels s2)) in
-        let nuid := next_uid s1 in
-        let s4 := set_channels s3 (upd_chan nuid (fun c => let (q2, _) := pbegin 0 (Z.of_nat (length entry)) (ch_q c) in
-                                   mkChan (ch_uid c) (pcommit entry q2) (ch_wid c) (ch_wname c) (ch_batch c) (ch_owner c)) (channels s3)) in
-        (s4, false)
+        let olds := close_chan uid (upd_chan uid (fun c => mkChan (ch_uid c) q1 (ch_wid c) (ch_wname c) (ch_batch c) (ch_owner c)) (channels s)) in
+        let qn := pcommit entry (fst (pbegin 0 (Z.of_nat (length entry)) (init newcap))) in
+        let cnew := mkChan (next_uid s) qn (ch_wid c) (ch_wname c) 0 (Some w) in
+        (mkSess (olds ++ [cnew]) (cs_buf s) (consume_cs s) (src_buf s) (src_pos s) (next_sid s) (total_bytes s) (min_sev s)
+                (next_uid s + 1) (set_assoc w (next_uid s) (writers s)) (sites s), false)
     end
   end.
 
@@ -132,15 +131,23 @@ Definition set_min_sev (s : sess) (sev : N) : sess :=
 (** lock-free writer actions that may happen inside a consume *)
 Inductive wact := WAdd (w : N) (k : nat) (payload : bytes) | WClose (w : N).
 
-(** a WAdd that does not fit is blocked in createChannel until consume ends: it is returned as deferred *)
-Fixpoint run_wacts (s : sess) (acts : list wact) : sess * list wact :=
+(** a WAdd that does not fit is blocked in createChannel until consume ends: it is returned as deferred, and so is
+    everything the same (blocked) writer thread would do afterwards *)
+Definition wact_writer (a : wact) : N := match a with WAdd w _ _ => w | WClose w => w end.
+Definition is_blocked (w : N) (d : list wact) : bool := existsb (fun a => wact_writer a =? w) d.
+
+Fixpoint run_wacts (s : sess) (d : list wact) (acts : list wact) : sess * list wact :=
   match acts with
-  | [] => (s, [])
-  | WClose w :: r => run_wacts (close_writer s w) r
-  | WAdd w k p :: r =>
-    let (s1, ok) := add_event_probe s w k p in
-    if ok then let (s2, _) := add_event s1 w 0 p in run_wacts s2 r
-    else let (s2, d) := run_wacts s1 r in (s2, WAdd w 0 p :: d)
+  | [] => (s, d)
+  | a :: r =>
+    if is_blocked (wact_writer a) d then run_wacts s (d ++ [match a with WAdd w _ p => WAdd w 0 p | _ => a end]) r
+    else match a with
+    | WClose w => run_wacts (close_writer s w) d r
+    | WAdd w k p =>
+      let (s1, ok) := add_event_probe s w k p in
+      if ok then let (s2, _) := add_event s1 w 0 p in run_wacts s2 d r
+      else run_wacts s1 (d ++ [WAdd w 0 p]) r
+    end
   end.
 
 Record cplan := mkPlan { pl_before : list wact; pl_between : list wact; pl_k : nat }.
@@ -153,19 +160,19 @@ Definition wp_entry (c : chan) (batch : N) : bytes := entry_special tag_wp (enc_
     store: the acquire fence after use_count()==1 synchronizes with the release decrement of the writer that
     dropped its reference, which is sequenced after its last commit ([fence] = false models the tree
     without the fence: the stale reads-from choice stays available). *)
-Fixpoint consume_loop (fence : bool) (s : sess) (idx : nat) (n : nat) (plans : list cplan) : sess * list bytes * N * list wact :=
+Fixpoint consume_loop (fence : bool) (s : sess) (d : list wact) (idx : nat) (n : nat) (plans : list cplan) : sess * list bytes * N * list wact :=
   match n with
-  | O => (s, [], 0, [])
+  | O => (s, [], 0, d)
   | S n' =>
     let pl := plan_nth plans idx in
-    let (s1, d1) := run_wacts s (pl_before pl) in
+    let (s1, d1) := run_wacts s d (pl_before pl) in
     match nth_error (channels s1) idx with
     | None => (s1, [], 0, d1)
     | Some c0 =>
       let closed := match ch_owner c0 with None => true | Some _ => false end in
-      let (s2, d2) := run_wacts s1 (pl_between pl) in
+      let (s2, d2) := run_wacts s1 d1 (pl_between pl) in
       match nth_error (channels s2) idx with
-      | None => (s2, [], 0, d1 ++ d2)
+      | None => (s2, [], 0, d2)
       | Some c =>
         let k := if closed && fence then length (Wpend (ch_q c)) else pl_k pl in
         let '(q1, (p1, p2)) := cread k (ch_q c) in
@@ -176,8 +183,8 @@ Fixpoint consume_loop (fence : bool) (s : sess) (idx : nat) (n : nat) (plans : l
                 wp_entry c size :: p1 :: (match p2 with [] => [] | _ => [p2] end)) in
         let c'' := if closed then mkChan (ch_uid c') (ch_q c') (ch_wid c') (ch_wname c') (ch_batch c') (Some 18446744073709551615) (* marker: reset *) else c' in
         let s3 := set_channels s2 (upd_chan (ch_uid c) (fun _ => c'') (channels s2)) in
-        let '(s4, ws, removed, d3) := consume_loop fence s3 (S idx) n' plans in
-        (s4, writes ++ ws, (if closed then 1 else 0) + removed, d1 ++ d2 ++ d3)
+        let '(s4, ws, removed, d3) := consume_loop fence s3 d2 (S idx) n' plans in
+        (s4, writes ++ ws, (if closed then 1 else 0) + removed, d3)
       end
     end
   end.
@@ -193,7 +200,7 @@ Definition consume (fence : bool) (s : sess) (plans : list cplan) : sess * list 
   let srcs := snd (match takeN (src_pos s) (src_buf s) with Some p => p | None => ([], []) end) in
   let s1 := mkSess (channels s) (cs_buf s) false (src_buf s) (lenN (src_buf s)) (next_sid s) (total_bytes s) (min_sev s) (next_uid s) (writers s) (sites s) in
   let n := length (channels s1) in
-  let '(s2, ws, removed, deferred) := consume_loop fence s1 0 n plans in
+  let '(s2, ws, removed, deferred) := consume_loop fence s1 [] 0 n plans in
   let s3 := set_channels s2 (filter (fun c => negb (is_reset c)) (channels s2)) in
   let writes := w1 ++ [srcs] ++ ws in
   let bytes := fold_left (fun a w => a + lenN w) writes 0 in
